@@ -12,6 +12,7 @@ ID = "C04"
 LEVEL = "exploration"
 ENV = {"x64": False, "devices": 1}
 BUDGET = {"quick": 120, "thorough": 2400}
+TRACE_CASES = True      # expensive cases: record the case in flight so a hang can be named
 RULE = (
     "Exhaustive grid (statistics interval, preconditioner interval, start step) in "
     "{1..4}x{1..4}x{0..6} (thorough {1..6}^2 x {0..9}) for replicated Distributed "
